@@ -8,8 +8,8 @@ It is tied to the C code by `checks/c13.py` (same histories through `harness/c13
 `mirdrv_c13`).
 
 Abstractions (all stated as assumptions in the evidence):
-* every `loadModule` builds a *fresh* module from a declaration list (reloading the same
-  `MIR_module_t` twice is not modelled);
+* every `loadModule` builds a *fresh* module object from a declaration list; `reload k` is
+  `MIR_load_module` again on the object of the k-th successful load;
 * a definition is identified by the id of the module that contains it (`Def.func id`,
   `Def.data id`), an external address by a number (`Def.ext a`);
 * each import is used once by the module's entry function, in one of three ways (`Use`).
@@ -134,8 +134,15 @@ structure Mod where
   inl : List (Name × Nat) := []
   /-- interface installed by `MIR_link`; `none` while the module is in `modules_to_link` -/
   iface : Option Iface := none
-  /-- `true` once the entry function has been translated (icode / machine code exists) -/
+  /-- `true` once the entry function has been translated (icode / machine code exists) since the
+  interface was installed -/
   coded : Bool := false
+  /-- ordinal of the `MIR_load_module` call that created the module object (index into `State.loaded`) -/
+  uid : Nat := 0
+  /-- machine code of the entry function, once generated: the (bindings, inlined bodies) it was
+  generated from.  `MIR_gen` never generates a function twice (mir-gen.c:9442), also not after the
+  module has been loaded and linked again. -/
+  mcode : Option (List (Name × Def) × List (Name × Nat)) := none
   deriving Repr, DecidableEq
 
 def Mod.importNames (m : Mod) : List Name := m.imps.map (·.1)
@@ -149,6 +156,8 @@ structure State where
   done : List Mod := []
   redefOk : Bool := false
   err : Option Err := none
+  /-- every module object built so far (id, text), in the order of the first `MIR_load_module` -/
+  loaded : List (Nat × List Decl) := []
   deriving Repr
 
 def init : State := {}
@@ -177,7 +186,32 @@ def loadModule (s : State) (id : Nat) (ds : List Decl) : State :=
   | .ok b =>
     match loadDefs id s.redefOk b b.defs s.env with
     | (env', some e) => { s with env := env', err := some e }
-    | (env', none) => { s with env := env', queue := s.queue ++ [{ id := id, imps := b.imps }] }
+    | (env', none) =>
+      { s with env := env', queue := s.queue ++ [{ id := id, imps := b.imps, uid := s.loaded.length }],
+               loaded := s.loaded ++ [(id, ds)] }
+
+/-- `VARR_PUSH (modules_to_link, m)` for a module object that exists already: it waits for the next
+link (again); if an interface was installed its thunks now lead to `undefined_interface` -/
+def requeue (s : State) (k : Nat) (fresh : Mod) : State :=
+  if s.queue.any (·.uid == k) then s
+  else match s.done.find? (·.uid == k) with
+    | some m => { s with queue := s.queue ++ [{ m with iface := none }],
+                         done := s.done.filter (·.uid != k) }
+    | none => { s with queue := s.queue ++ [fresh] }
+
+/-- `MIR_load_module` on the `k`-th module object once more: the item loop is the same as for the
+first load (sections keep their memory, functions keep their thunks, `setup_global` and the
+redefinition test run again) -/
+def reloadModule (s : State) (k : Nat) : State :=
+  match s.loaded[k]? with
+  | none => s
+  | some (id, ds) =>
+    match build ds with
+    | .error e => { s with err := some e }
+    | .ok b =>
+      match loadDefs id s.redefOk b b.defs s.env with
+      | (env', some e) => { s with env := env', err := some e }
+      | (env', none) => requeue { s with env := env' } k { id := id, imps := b.imps, uid := k }
 
 def loadExternal (s : State) (n : Name) (a : Nat) : State :=
   { s with env := (setupGlobal s.env n (.ext a)).1 }
@@ -214,10 +248,12 @@ def inlineMod (m : Mod) : Mod :=
       | .call, none, some (.func id) => acc ++ [(p.1, id)]
       | _, _, _ => acc) m.inl }
 
-/-- third part of `MIR_link`: pop the queue and install the interface (generators translate the
-function now or later, but always from the frozen `item->addr`) -/
+/-- third part of `MIR_link`: pop the queue and install the interface.  `MIR_set_gen_interface`
+generates machine code now unless it exists; the lazy interface does so at the first call; the
+interpreter drops its icode (`finish_func_interpretation`) and translates again at the first call -/
 def installIface (i : Iface) (m : Mod) : Mod :=
-  { m with iface := some i, coded := (i != .interp) }
+  { m with iface := some i, coded := (i == .gen),
+           mcode := if i == .gen then (m.mcode <|> some (m.binds, m.inl)) else m.mcode }
 
 def link (s : State) (iface : Option Iface) (res : Resolver) : State :=
   match resolveQueue res s.queue s.env with
@@ -228,24 +264,36 @@ def link (s : State) (iface : Option Iface) (res : Resolver) : State :=
     | none => { s with env := env', queue := q'' }
     | some i => { s with env := env', queue := [], done := s.done ++ q''.map (installIface i) }
 
-/-- first execution of an interpreted function: `generate_icode` re-reads the address of every import
-used as a `mov` operand from the environment item (`mir-interp.c:220-221`) and writes it back into
-the import item -/
+/-- first execution of the entry function after its interface was installed.
+Interpreter: `generate_icode` re-reads the address of every import used as a `mov` operand from the
+environment item (`mir-interp.c:220-221`) and writes it back into the import item.
+Lazy generator: machine code is generated from `item->addr` now, unless it exists already. -/
 def codeMod (env : Env) (m : Mod) : Mod :=
   if m.coded then m
-  else { m with coded := true,
-                binds := m.binds.map (fun (p : Name × Def) =>
-                  match m.imps.lookup p.1, env.lookup p.1 with
-                  | some .call, _ => p
-                  | _, some d => (p.1, d)
-                  | _, none => p) }
+  else match m.iface with
+    | some .interp =>
+      { m with coded := true,
+               binds := m.binds.map (fun (p : Name × Def) =>
+                 match m.imps.lookup p.1, env.lookup p.1 with
+                 | some .call, _ => p
+                 | _, some d => (p.1, d)
+                 | _, none => p) }
+    | _ => { m with coded := true, mcode := m.mcode <|> some (m.binds, m.inl) }
+
+/-- the (bindings, inlined bodies) the code that runs was made from: the interpreter follows the
+import items, machine code stays what it was when it was generated -/
+def Mod.running (m : Mod) : List (Name × Def) × List (Name × Nat) :=
+  match m.iface, m.mcode with
+  | some .interp, _ => (m.binds, m.inl)
+  | some _, some mc => mc
+  | _, _ => (m.binds, m.inl)
 
 def funcLinked (s : State) (id : Nat) : Bool := s.done.any (·.id == id)
 
 /-- value produced by one import use of a translated module (`none`: the process dies — a thunk still
 redirected to `undefined_interface`, or an external whose registered address is NULL) -/
 def observeImp (s : State) (m : Mod) (p : Name × Use) : Option Nat :=
-  match p.2, m.inl.lookup p.1, m.binds.lookup p.1 with
+  match p.2, m.running.2.lookup p.1, m.running.1.lookup p.1 with
   | .call, some id, _ => some id
   | _, _, some (.ext 0) => none      -- external registered with address NULL: call/read through NULL
   | .ref, _, some d => some d.value
@@ -270,6 +318,7 @@ inductive Op
   | setRedef (b : Bool)
   | link (iface : Option Iface) (res : Resolver)
   | call
+  | reload (k : Nat)   -- `MIR_load_module` again on the module object of the k-th successful load
 
 /-- an error after which the context is not used any more.  A failed `MIR_link`
 (`MIR_undeclared_op_ref_error`, the error function longjmps out) is NOT fatal: the caller may
@@ -289,6 +338,7 @@ def step (s : State) (op : Op) : State :=
     | .setRedef b => { s with redefOk := b }
     | .link i r => link s i r
     | .call => callAll s
+    | .reload k => reloadModule s k
 
 def runFrom (s : State) (h : List Op) : State := h.foldl step s
 def run (h : List Op) : State := runFrom init h
